@@ -19,6 +19,9 @@ Mirrored Go code (as it is after the `fix:` commits listed in notes/C11.md):
   `Reset`, `Logout`, `releaseLimits`, together with go-smtp's `fromReceived`/`recipients` gating) and of
   `internal/target/remote` (`Target.Start`, `AddRcpt` → `connectionForDomain` → `conn.Rcpt` with the RCPT
   accepted / refused / failed with the connection lost, `Body`, `remoteDelivery.Close`) — `Sess`, `Rem`.
+  `connectionForDomain` is `Rem.connFor`: connection of the delivery / from the pool / new, with the state of
+  the MX world at that moment (can a new connection be made?) and what the next hop does with MAIL (accepted /
+  refused / session lost) as inputs, also the world that changed since a pooled connection was opened.
   The keys the remote target hands to the limits are derived from the domain spellings separately at every
   place (`RemKeys`: `rd.connections` key, `TakeDest`, `ReleaseDest` after a failed MAIL, `ReleaseDest` in
   `Close`, `TakeMsg` in `Start`, `ReleaseMsg` in `Close`).
@@ -587,8 +590,12 @@ deriving DecidableEq, Repr
 
 inductive RemOp
   | start                                      -- Target.Start
-  | addRcpt (d : Nat) (connOk mailOk : Bool) (rc : RcptRes := .accepted)
+  | addRcpt (d : Nat) (connOk mailOk : Bool) (rc : RcptRes := .accepted) (pooled : Bool := false)
+      (mailLost : Bool := false)
                                                -- AddRcpt → connectionForDomain(d) → conn.Rcpt; d = domain SPELLING
+                                               -- connOk: a NEW connection can be made at this moment (the MX world)
+                                               -- pooled: the pool handed out a usable connection
+                                               -- mailLost (with mailOk = false): 421 / connection gone, not a refusal
   | body                                       -- Body / BodyNonAtomic: DATA on every entry of rd.connections
   | close                                      -- Commit/Abort → Close
 deriving DecidableEq, Repr
@@ -604,21 +611,50 @@ def Rem.rcpt (r : Rem) (_d : Nat) : RcptRes → Rem × List Call
 
 def Rem.hasConn (r : Rem) (ck : Nat) : Bool := r.conns.any (fun p => p.1 == ck)
 
+/-- How a call of `connectionForDomain` ended. -/
+inductive ConnOut
+  | cached       -- the delivery already has a connection for the key (`rd.connections`): returned as it is
+  | opened       -- a connection (from the pool or new) holds a destination permit and is now in `rd.connections`
+  | failed       -- an error is returned, `rd.connections` is as before
+deriving DecidableEq, Repr
+
+/-- `remoteDelivery.connectionForDomain(d)`.  The world outside the delivery is an input:
+* `pooled` — `rd.rt.pool.Get` handed out a usable connection of an EARLIER delivery (and the message is not
+  REQUIRETLS): no MX lookup, no dialling, `newConn` is not called;
+* `connOk` — a NEW connection can be made at this moment (MX lookup, address of the MX, connect, greeting,
+  STARTTLS, MX/TLS policies, the REQUIRETLS level checks).  The world may have changed since the pooled
+  connection was opened: `pooled = true` with `connOk = false` is the next hop that has become unreachable;
+* `takeOk` — result of `TakeDest`;
+* `mailOk` / `mailLost` — MAIL FROM accepted; refused by a reply (the session stays usable); or the session is
+  over (421 reply, connection dropped, command time-out), on a pooled connection typically because the server
+  limits the transactions per session or has dropped the idle session.
+On the pinned tree a failed MAIL — refused or lost, on a new or on a pooled connection — ends the call: the
+permit is given back (`ReleaseDest`), the connection is closed, the error returned.  No second connection is
+opened for the same call, so `connOk` is not consulted for a pooled connection (the queue retries later).  Every
+path that returns an error has given back what it took: `C11_connectionForDomain_error_releases`. -/
+def Rem.connFor (k : RemKeys) (r : Rem) (takeOk : Bool) (d : Nat) (pooled connOk mailOk _mailLost : Bool) :
+    ConnOut × Rem × List Call :=
+  if r.hasConn (k.conn d) then (.cached, r, [])        -- connection of this delivery reused
+  else if !pooled && !connOk then (.failed, r, [])     -- MX lookup / connect / greeting / TLS / policy failed
+  else if !takeOk then (.failed, r, [Call.takeDest (k.take d)])
+  else if !mailOk then (.failed, r, [Call.takeDest (k.take d), Call.relDest (k.undo d)])
+                                                       -- MAIL refused / session lost at MAIL (new or pooled)
+  else (.opened, { r with conns := (k.conn d, k.close d) :: r.conns }, [Call.takeDest (k.take d)])
+
 def Rem.op (k : RemKeys) (r : Rem) (takeOk : Bool) : RemOp → Rem × List Call
   | .start =>
     if r.started then (r, [])
     else if takeOk then ({ r with started := true, conns := [] }, [Call.takeMsg r.ip (k.src r.dom)])
     else (r, [Call.takeMsg r.ip (k.src r.dom)])
-  | .addRcpt d connOk mailOk rc =>
+  | .addRcpt d connOk mailOk rc pooled mailLost =>
     if !r.started then (r, [])
-    else if r.hasConn (k.conn d) then r.rcpt d rc      -- connection of this delivery reused
-    else if !connOk then (r, [])                       -- MX lookup / connect / greeting / TLS / policy failed
-    else if !takeOk then (r, [Call.takeDest (k.take d)])
-    else if !mailOk then (r, [Call.takeDest (k.take d), Call.relDest (k.undo d)])
-                                                       -- MAIL refused / connection lost at MAIL
     else
-      let r' := ({ r with conns := (k.conn d, k.close d) :: r.conns } : Rem).rcpt d rc
-      (r'.1, Call.takeDest (k.take d) :: r'.2)
+      let c := r.connFor k takeOk d pooled connOk mailOk mailLost
+      match c.1 with
+      | .failed => (c.2.1, c.2.2)
+      | _ =>
+        let r' := c.2.1.rcpt d rc
+        (r'.1, c.2.2 ++ r'.2)
   | .body =>
     -- DATA accepted, refused or lost on any connection: `errored` is set (the connection is closed instead
     -- of pooled by `Close`), `rd.connections` keeps every entry, no Group call.
